@@ -29,10 +29,10 @@ def main():
     assert os.path.exists(patch) and os.path.exists(demo), "missing patch.diff or tests/seed_demo.rs"
     # 1. with the change: existing suite passes, demonstration fails
     rc, o = sh("git stash list; git status --short | head", cwd=wt)
-    rc, o = sh("git diff --quiet -- src", cwd=wt)
-    if rc == 0:
-        rc2, o2 = sh("git apply patch.diff", cwd=wt)
-        assert rc2 == 0, "cannot apply patch in worktree: " + o2
+    # start from pristine sources (agents share one stash across worktrees and may have left a mix behind)
+    sh("git checkout -- src", cwd=wt)
+    rc2, o2 = sh("git apply patch.diff", cwd=wt)
+    assert rc2 == 0, "cannot apply patch in worktree: " + o2
     rc_suite, o_suite = sh("(cargo test --offline --features serde --lib --test lib --test test_array --test serde_tests; cargo test --offline --features serde --doc) 2>&1 | grep -E '^test result|FAILED|panicked|error' | head -20", cwd=wt)
     suite_ok = "FAILED" not in o_suite and "test result: ok" in o_suite
     out["ran"].append({"cmd": "cargo test --offline --features serde --lib --test lib --test test_array --test serde_tests; ... --doc   (patch applied; every target except the demonstration)", "ok": suite_ok, "summary": o_suite.strip().splitlines()[:8]})
